@@ -70,7 +70,9 @@ def _mem_operand(w, reg):
     lit = lambda t: w.lit(t, cols)
     opt = lambda r: z3.Option(r)
     disp = z3.Concat(opt(lit("-")), rx.union([z3.Concat(lit("0x"), z3.Plus(ch("0123456789abcdef"))), z3.Plus(ch("0123456789"))]))
-    return rx.concat([lit("["), opt(reg), opt(rx.concat([lit("+"), reg, lit("*"), ch("1248")])), opt(z3.Concat(lit("+"), disp)), lit("]")])
+    scaled = rx.concat([lit("["), opt(reg), opt(rx.concat([lit("+"), reg, lit("*"), ch("1248")])), opt(z3.Concat(lit("+"), disp)), lit("]")])
+    pair16 = rx.concat([lit("["), reg, lit("+"), reg, opt(z3.Concat(lit("+"), disp)), lit("]")])  # k(%bx,%si) -> [a+b+k]
+    return rx.union([scaled, pair16])
 
 
 def _operand_fields_domain(w, bad):
@@ -184,6 +186,8 @@ def check_template(tpl):
                 SM = sM.seq(pattern, K2, (1,))
             if "AEM" in lem:
                 for direction, r in (("J-S", inter(WF12, LM, comp(SM))), ("S-J", inter(WF12, SM, comp(LM)))):
+                    if direction not in tpl.get("aem_dirs", ("J-S", "S-J")):
+                        continue
                     v, w = q.check(r)
                     if tpl.get("crosscheck") and v in ("sat", "unsat"):
                         obligation("XCHECK", direction, q.crosscheck(r, v))
